@@ -38,10 +38,13 @@ NsMaps == << <<>>, [p |-> U1], [p |-> U2], [q |-> U1], [p |-> U1, q |-> U1], [p 
              [x \in {"", "p"} |-> U1], [x \in {"", "p", "q"} |-> IF x = "" THEN U2 ELSE U1],
              \* a prefix bound to the EMPTY URI: p:a is the name a in no namespace (not "any namespace")
              [p |-> <<>>, q |-> U1] >>
+RevElems == LET s == Asc({n \in Ids(doc) : doc[n].k = "elem"}) IN [i \in 1..Len(s) |-> s[Len(s) + 1 - i]]
 VarsOf(ns) == << [sp |-> <<>>, lo |-> <<"v">>, val |-> StrV(<<"a">>)],
                  [sp |-> U1, lo |-> <<"v">>, val |-> NumV(NInt(2))],
                  [sp |-> U2, lo |-> <<"v">>, val |-> BoolV(TRUE)],
                  [sp |-> <<>>, lo |-> <<"n">>, val |-> [t |-> "ns", v |-> <<1>>]],
+                 \* the elements of the document, handed over in REVERSE document order (the binding is the caller's and stays as it is)
+                 [sp |-> <<>>, lo |-> <<"r">>, val |-> [t |-> "ns", v |-> RevElems]],
                  \* bound to the false / zero / empty value of each type: bound all the same
                  [sp |-> <<>>, lo |-> <<"f","0">>, val |-> BoolV(FALSE)], [sp |-> <<>>, lo |-> <<"z","0">>, val |-> NumV(Zero(1))],
                  [sp |-> <<>>, lo |-> <<"s","0">>, val |-> StrV(<<>>)], [sp |-> U1, lo |-> <<"e","0">>, val |-> [t |-> "ns", v |-> <<>>]] >>
@@ -69,6 +72,7 @@ PoolC11 == << All(T_name("p", <<"a">>)), All(T_name("q", <<"a">>)), All(T_name("
               All(T_name("self", <<"c","h","i","l","d">>)), All(T_nsany("descendant")), AllAttr(T_name("descendant", <<"s","e","l","f">>)),
               All(T_name("p", <<"s","e","l","f">>)), All(T_name("attribute", <<"a">>)),
               Var("", <<"v">>), Var("p", <<"v">>), Var("q", <<"v">>), Var("", <<"n">>), Var("", <<"u">>), Var("p", <<"u">>),
+              Var("", <<"r">>), Call(<<"c","o","u","n","t">>, <<Var("", <<"r">>)>>), CallP("p", <<"f">>, <<Var("", <<"r">>), Var("", <<"r">>)>>), Filter(Var("", <<"r">>), <<>>, <<Step("self", T_any)>>),
               Filter(Var("", <<"n">>), <<>>, <<Step("child", T_nsany("p"))>>),
               CallP("p", <<"f">>, <<IntE(1), Lit(<<"a">>)>>), CallP("q", <<"f">>, <<IntE(1), Lit(<<"a">>)>>),
               CallP("p", <<"f">>, <<All(T_any), All(T_name("p", <<"a">>))>>),
